@@ -145,20 +145,23 @@ def getMatch (indices : List Int) (line : Bytes) (idx : Int) : Except String Byt
     else if stop > line.length ∨ start > stop then .error "slice bounds out of range"
     else .ok ((line.take stop.toNat).drop start.toNat)
 
+/-- body of `for name := range names` (after the fix: names sorted) -/
+def namedStep (order : List (Bytes × Int)) (indices : List Int) (line : Bytes) (jb : JB) (name : Bytes) :
+    Except String JB := do
+  let v ← getMatch indices line (mapGet 0 order name)
+  pure (jb.writeInferred name v)
+
+/-- body of `for i := 0; i < len(s.indices)/2; i++` -/
+def numberedStep (indices : List Int) (line : Bytes) (jb : JB) (i : Nat) : Except String JB := do
+  let v ← getMatch indices line (i : Nat)
+  pure (if v ≠ [] then jb.writeInferred (natAscii i) v else jb)
+
 /-- `json(named, numbered)`; `order` = the entries of `nameTable` as `range` produced them. -/
 def json (named numbered : Bool) (order : List (Bytes × Int)) (indices : List Int) (line : Bytes) :
     Except String Bytes := do
   let jb := JB.opened
-  let jb ← if named then
-      (sortNames (order.map (·.1))).foldlM (fun (jb : JB) name => do
-        let v ← getMatch indices line (mapGet 0 order name)
-        pure (jb.writeInferred name v)) jb
-    else pure jb
-  let jb ← if numbered then
-      (List.range (indices.length / 2)).foldlM (fun (jb : JB) i => do
-        let v ← getMatch indices line (i : Nat)
-        pure (if v ≠ [] then jb.writeInferred (natAscii i) v else jb)) jb
-    else pure jb
+  let jb ← if named then (sortNames (order.map (·.1))).foldlM (namedStep order indices line) jb else pure jb
+  let jb ← if numbered then (List.range (indices.length / 2)).foldlM (numberedStep indices line) jb else pure jb
   pure jb.close.sb
 
 /-! ### cmd/expressions.go -/
